@@ -59,7 +59,12 @@ def answers(proj, conc=None):
         except exceptions.ModuleSyntaxError:
             srcs[p] = "<syntax error>"
             names[p] = []
-    return dict(files=files, pys=pys, mods=mods, srcs=srcs, names=names)
+    pkgs = {}
+    for d_ in ("d",):
+        r = proj.find_module(d_)
+        if r is not None and r.is_folder():
+            pkgs[d_] = sorted(proj.get_pymodule(r).get_attributes())
+    return dict(files=files, pys=pys, mods=mods, srcs=srcs, names=names, pkgs=pkgs)
 
 
 def make_run(p):
@@ -119,6 +124,7 @@ def make_run(p):
                         if not fs.is_(f, mfs.ABSENT) or not fs.is_(fs.parent(f), mfs.DIR):
                             raise PathAbort()
                         fs.kind[f] = mfs.FILE
+                        fs._touch_parent(f)
                         fs.op_set_content(f, b"z = 9\n")
                         proj.validate(proj.root)
                         trace.append([op, f])
@@ -126,6 +132,7 @@ def make_run(p):
                         if not fs.is_(f, mfs.FILE):
                             raise PathAbort()
                         fs.kind[f] = mfs.ABSENT
+                        fs._touch_parent(f)
                         proj.validate(proj.root)
                         trace.append([op, f])
                 except exceptions.RopeError:
@@ -133,7 +140,7 @@ def make_run(p):
                 if choose("q%d" % step, 2) or step == p["steps"] - 1:
                     warm = answers(proj)
                     fresh = answers(rproject.Project(ROOT, ropefolder=None, automatic_soa=False))
-                    for key in ("files", "pys", "mods"):
+                    for key in ("files", "pys", "mods", "pkgs"):
                         if warm[key] != fresh[key]:
                             m = E.fresh_model()
                             return h.fail("stale_" + key, "after %s the long-lived project answers %s, a fresh one %s" % (concretize(trace, m), warm[key], fresh[key]),
